@@ -1587,4 +1587,177 @@ engine and kernel, but about the two engines, the two kernels and the schedule t
 
 end Proof
 
+/-! ## examples: the hypotheses are satisfiable, the predicate rejects bad traces -/
+
+section Examples
+
+/-- the scripted kernel of `Model/TlsBudget.lean` has the virtual clock -/
+theorem TW.vclock : VClock TW.world where
+  ok := TW.clockOk
+  full := by
+    intro w d t hr
+    simp only [TW.world] at hr ⊢
+    split at hr
+    · rename_i rdy el rest heq
+      simp only [heq]
+      simp only [Bool.or_eq_false_iff, decide_eq_false_iff_not] at hr
+      obtain ⟨h1, h2⟩ := hr
+      subst h1
+      simp only [Bool.false_or, TW.elapsed]
+      have h3 : decide (t < 0) = false := by simpa using h2
+      rw [if_neg h2, h3]
+      simp
+    · rename_i heq
+      simp only [heq]
+      simp only [decide_eq_false_iff_not] at hr
+      have h3 : decide (t < 0) = false := by simpa using hr
+      simp only [TW.elapsed, if_neg hr, h3]
+      simp
+
+/-- a small engine: round 1 writes a hello and reads the reply (WANT_READ until it is there), later rounds read
+application data; after a failed callback it answers SSL_ERROR_SYSCALL at once; it never writes zero bytes -/
+def demoEngine : Engine Nat where
+  sslRead st n :=
+    if st = 0 then
+      .bioWrite [22, 3, 1] (fun r => match r with
+        | none => .ret .syscallErr [] st
+        | some _ => .bioRead n (fun r => match r with
+          | none => .ret .syscallErr [] st
+          | some [] => .ret .wantRead [] st
+          | some _ => .ret .wantRead [] 1))
+    else
+      .bioRead n (fun r => match r with
+        | none => .ret .syscallErr [] st
+        | some [] => .ret .wantRead [] st
+        | some bs => .ret (.done bs.length) bs st)
+  sslWrite st d :=
+    if d = [] then .ret (.done 0) [] st
+    else .bioWrite d (fun r => match r with
+      | none => .ret .syscallErr [] st
+      | some 0 => .ret .wantWrite [] st
+      | some m => .ret (.done m) [] st)
+  initFinished st := st != 0
+
+theorem demoEngine_ok : EngOk demoEngine false where
+  read := by
+    intro s n
+    unfold demoEngine
+    simp only
+    split
+    · refine .bioWrite ?_
+      intro r; cases r with
+      | none => exact .ret (by simp [SslAns.isDone])
+      | some m =>
+        refine .bioRead ?_
+        intro r; cases r with
+        | none => exact .ret (by simp [SslAns.isDone])
+        | some bs => cases bs <;> exact .ret (by simp [SslAns.isDone])
+    · rename_i hs
+      refine .bioRead ?_
+      intro r; cases r with
+      | none => exact .ret (by simp [SslAns.isDone])
+      | some bs =>
+        cases bs with
+        | nil => exact .ret (by simp [SslAns.isDone])
+        | cons b bs => exact .ret (by intro _; simp [hs])
+  failStop := by
+    constructor
+    · intro s n
+      unfold demoEngine
+      simp only
+      split
+      · refine .bioWrite (by simp) ?_ ⟨_, _, _, rfl, rfl⟩
+        intro m
+        refine .bioRead ?_ ⟨_, _, _, rfl, rfl⟩
+        intro bs; cases bs <;> exact .ret
+      · refine .bioRead ?_ ⟨_, _, _, rfl, rfl⟩
+        intro bs; cases bs <;> exact .ret
+    · intro s d
+      unfold demoEngine
+      simp only
+      split
+      · exact .ret
+      · rename_i hd
+        refine .bioWrite hd ?_ ⟨_, _, _, rfl, rfl⟩
+        intro m; cases m <;> exact .ret
+
+def demoEnv : Env Nat TW := { C := Cfg.current, W := TW.world, E := demoEngine }
+
+/-- a synchronous client and an asynchronous server, each with its own scripted kernel -/
+def demoSys : Sys Nat TW :=
+  { c := some (Ep.init ⟨false, 16⟩ 0 { waits := [(true, 0), (false, 0), (true, 7), (true, 2), (true, 0)],
+                                         recvs := [.data [22, 3, 2], .data [7, 8, 9], .data [5], .data []] }),
+    s := some (Ep.init ⟨true, 16⟩ 0 { waits := [(true, 0)], recvs := [.data [22, 3, 2], .data [1, 2]] }),
+    cpay := [1, 2], spay := [7, 8, 9, 5] }
+
+/-- client: `Receive` with the timeouts 0, 0, 50, -1, 50 - handshake rounds under a zero budget (hello written, reply not
+there / there: WANT_READ, zero waits), a 50 ms wait that times out followed by a zero wait, an unlimited wait, three
+bytes delivered after `done`; server: driver steps - readable (handshake), readable (two bytes to the receive handler),
+idle, HUP (disconnect handler), and later steps that must not call it again (the socket is unregistered); operations
+on an endpoint that does not exist or of the wrong API level do nothing.  58 observations. -/
+def demoHist : List Op :=
+  [.recv .c 0, .step .s { rd := true } false, .recv .c 0, .recv .c 50, .step .s { rd := true } false,
+   .recv .c (-1), .step .s {} false, .step .s { hupErr := true } false, .recv .c 50, .step .s { hupErr := true } false,
+   .step .s { rd := true } true, .send (.other "x") [1] 0, .enq .c [1]]
+
+set_option maxRecDepth 100000 in
+example : ∀ o ∈ modelTrace demoEnv demoSys demoHist, o.isAbort = false := by decide
+
+set_option maxRecDepth 100000 in
+example : ∃ s, specRun {} (modelTrace demoEnv demoSys demoHist) = .ok s :=
+  model_satisfies_spec_partial demoEnv TW.vclock demoSys demoEngine_ok
+    ⟨fun _ h => by cases h; exact Ep.init_fresh _ _ _, fun _ h => by cases h; exact Ep.init_fresh _ _ _⟩ demoHist (by decide)
+
+
+set_option maxRecDepth 100000 in
+example : (modelTrace demoEnv demoSys demoHist).length = 58 := by decide
+
+def rejects (t : List Obs) : Bool :=
+  match specCheck t with
+  | .ok _ => false
+  | .error _ => true
+
+def twoSync : Obs := .setup (some ⟨false, 16⟩) (some ⟨false, 16⟩) false
+
+/-- the seeded change C07_r4_agentH (`BioRead` without the write-back): `Receive(50)` waits 50 ms twice -/
+example : rejects [twoSync, .api .c .recv (some 50), .poll .c 50 false, .sslret .c false false, .poll .c 50 false] = true := by decide
+/-- a bounded wait inside an unlimited call, a blocking wait inside a zero call -/
+example : rejects [twoSync, .api .c .send (some (-1)), .poll .c 30 false] = true := by decide
+example : rejects [twoSync, .api .s .recv (some 0), .poll .s 1 true] = true := by decide
+/-- bytes delivered although the engine has not finished the handshake (`SocketTlsImpl::Receive` not overriding) -/
+example : rejects [twoSync, .api .c .recv (some 0), .sslret .c true false, .ret .c (.n 5)] = true := by decide
+/-- bytes delivered from a peer that does not speak TLS -/
+example : rejects [.setup none (some ⟨true, 16⟩) true, .sslret .s true true, .rx .s 5] = true := by decide
+/-- the disconnect handler twice; an empty buffer to the receive handler; a send without MSG_NOSIGNAL; a crash -/
+example : rejects [.setup (some ⟨true, 16⟩) none false, .disc .c, .disc .c] = true := by decide
+example : rejects [.setup (some ⟨true, 16⟩) none false, .sslret .c true true, .rx .c 0] = true := by decide
+example : rejects [twoSync, .send .s false] = true := by decide
+example : rejects [twoSync, .abort .crash "exit=-6 Assertion `i < handshakeStepsMax' failed."] = true := by decide
+/-- end-of-case clauses: the marker on the wire, a payload that did not arrive, a stuck exchange, a failure on a
+healthy connection -/
+example : rejects [twoSync, .payload [1, 2] [] [], .wire .c [22, 3, 1, 0, 2, 1, 2]] = true := by decide
+example : rejects [twoSync, .payload [] [1] [], .state .c { init := some 1 }, .state .s { init := some 1 }] = true := by decide
+example : rejects [twoSync, .loopend true, .state .c { init := some 1 }, .state .s { init := some 1 }] = true := by decide
+example : rejects [twoSync, .api .c .recv (some 0), .ret .c .threw, .state .c { init := some 1 }, .state .s { init := some 1 }] = true := by
+  decide
+set_option maxHeartbeats 2000000 in
+/-- and a complete healthy case is accepted -/
+example : rejects [twoSync, .payload [] [1] [2], .api .c .send (some 0), .poll .c 0 true, .send .c true, .sslret .c true true,
+    .ret .c (.n 1), .api .s .recv (some 50), .poll .s 50 true, .sslret .s true true, .ret .s (.n 1), .loopend false,
+    .got .c [2], .state .c { init := some 1 }, .got .s [1], .state .s { init := some 1 }] = false := by decide
+
+/-- the hypothesis "no assert fires" is needed: an engine that answers WANT_READ for ever while `poll` reports the
+descriptor ready runs into `assert(i < handshakeStepsMax)` (compare `Tls.unlimited_receive_needs_blocking_engine`);
+the model's trace then ends in a crash, which the predicate rejects -/
+def stubbornEngine : Engine Unit where
+  sslRead _ _ := .ret .wantRead [] ()
+  sslWrite _ _ := .ret .wantRead [] ()
+  initFinished _ := false
+
+set_option maxRecDepth 100000 in
+example : rejects (modelTrace { C := Cfg.current, W := TW.world, E := stubbornEngine }
+    { c := some (Ep.init ⟨false, 16⟩ () { waits := List.replicate 12 (true, 0) }) } [.recv .c 50]) = true := by decide
+
+end Examples
+
 end SockModel.Tls.Spec
